@@ -192,10 +192,19 @@ func clause(m *member, name string, stmts string, res string, want string) strin
 	return fmt.Sprintf("\t\tchk(rt, rec, %s, func() []int { %sreturn %s }, %s)\n", sig(m, name), stmts, res, want)
 }
 
-func curriedCall(s scheme, order []int) string {
-	var sb strings.Builder
-	for _, p := range order {
-		sb.WriteString("(" + s.arg(p) + ")")
+// curriedApply applies a curried function expression to the arguments in the given order. Every partial
+// application except the last goes through fork1 (c14_test.go): the same function value is also applied to
+// two other arguments, once before and once after, and those partial applications are dropped. A curried
+// function is a function: what an earlier or later application of the same value received must not reach
+// this chain.
+func curriedApply(expr string, s scheme, order []int) string {
+	for j, p := range order {
+		a := s.arg(p)
+		if j == len(order)-1 {
+			expr = expr + "(" + a + ")"
+		} else {
+			expr = fmt.Sprintf("fork1(%s, %s, %s+1000, %s+2000)", expr, a, a, a)
+		}
 	}
-	return sb.String()
+	return expr
 }
